@@ -765,6 +765,27 @@ def _nm(v):
 
 
 # ====================================================================================================================
+def fixture_simulator(world, wn):
+    """a WNTRSimulator for the interpreted fixture model: made by the repository's own constructor (so that whatever __init__ sets is present) when it can be
+    interpreted in this world, a bare instance holding the model otherwise"""
+    from ..concrete import Instance, ProgramError, Unsupported
+    I = world.interp
+    cls = world.function(CORE, "WNTRSimulator")
+    for key in ("wntr.sim.network_isolation.get_long_size", "wntr.sim.core.get_long_size", "wntr.sim.network_isolation.network_isolation.get_long_size"):
+        world.overrides.setdefault(key, lambda: 8)
+    try:
+        sim = cls(wn)
+        if isinstance(sim, Instance):
+            return sim
+    except (ProgramError, Unsupported):
+        pass
+    sim = Instance(cls)
+    I.raw_setattr(sim, "_wn", wn)
+    for a_, v_ in (("_Htol", 1e-4), ("_Qtol", 1e-8)):
+        I.raw_setattr(sim, a_, v_)
+    return sim
+
+
 def companion_rules(repo, chk, rule="R-C05-8", branch_rule=None):
     """see _companion_rules_variant: run on both variants of the fixture model (variant B adds a pump-speed control, and a rule with two ELSE actions one of which sets a pump speed)"""
     for variant in ("A", "B"):
@@ -799,8 +820,7 @@ def _companion_rules_variant(repo, chk, rule, branch_rule, variant):
                  ("x_speed_rule", Cc["Rule"](Cc["ValueCondition"](t1, "level", ">", 4.0), [Cc["ControlAction"](pu2, "base_speed", 0.7)], [], priority=2, name="x_speed_rule"))]
         for nm, c in extra:
             call(wn, "add_control", nm, c)
-        sim = Instance(world.function(CORE, "WNTRSimulator"))
-        I.raw_setattr(sim, "_wn", wn)
+        sim = fixture_simulator(world, wn)
 
         class _SourceChecker(object):        # the feasibility controls of PRV / PSV / FCV only need a callable to be built
             _sa_mock = True
@@ -885,8 +905,7 @@ def manager_rules(repo, chk):
         call = lambda o, m, *a, **k: I.call(I.getattr_(o, m), list(a), k)
         try:
             wn = build_fixture_model(repo, world, variant)
-            sim = Instance(world.function(CORE, "WNTRSimulator"))
-            I.raw_setattr(sim, "_wn", wn)
+            sim = fixture_simulator(world, wn)
 
             class _SourceChecker(object):
                 _sa_mock = True
@@ -897,8 +916,6 @@ def manager_rules(repo, chk):
                 def register_control(self, control):
                     pass
             I.raw_setattr(sim, "_valve_source_checker", _SourceChecker())
-            for a_, v_ in (("_Htol", 1e-4), ("_Qtol", 1e-8)):
-                I.raw_setattr(sim, a_, v_)
             I.getattr_(sim, "_get_control_managers")()
             I.getattr_(sim, "_register_controls_with_observers")()
             kind = lambda c: str(I.getattr_(c, "epanet_control_type")).split(".")[-1]
